@@ -79,6 +79,16 @@ def run(tier: str, seed: int) -> int:
                           ctx=dict(site="pack_partitions_to_parquet", mode="raises", tempmode=mode))
         else:
             runs.append(r)
+    # more than ten INPUT partitions feeding one output partition (sub-part names part2 / part10 sort differently as strings)
+    for mode in (("outside_uuid",) if quick else ("inside", "outside_uuid")):
+        cfg = Cfg(n=40, nin=12, nout=3, mode=mode, seed=seed + 78)
+        r = packfs.run_pack(cfg)
+        chk.count()
+        if r.status != "returned":
+            chk.violation(f"raises|{cfg.key()}", f"pack_partitions_to_parquet raised without any fault: {getattr(r, 'error', '')}; {cfg}", f"# {cfg}",
+                          ctx=dict(site="pack_partitions_to_parquet", mode="raises", tempmode=mode))
+        else:
+            runs.append(r)
     # few distinct sites: empty output partitions BETWEEN non-empty ones in dense patterns ([F,E,F,F], [F,E,E,F,F,..]): the renumbering
     # step moves several parts, and a part's final name can be the original name of a later part
     dups = [(8, 4, 2), (9, 6, 3), (10, 7, 3), (8, 5, 2), (12, 6, 4), (9, 4, 3)]
